@@ -452,6 +452,10 @@ impl File {
     fn fallocate(&self, offset: i64, len: i64) -> Result<(), StorageError> {
         #[cfg(all(aranya_core_verif, feature = "std"))]
         verif_io_log::record(verif_io_log::IoOp::Fallocate { offset, len });
+        #[cfg(all(aranya_core_verif, feature = "std"))]
+        if verif_io_log::take_failure().is_some() {
+            return Err(StorageError::IoError);
+        }
         libc::fallocate(&self.fd, 0, offset, len)?;
         // A full `fsync` (not `fdatasync`) so the size/extent metadata
         // dirtied by `fallocate` is durable before any data written into
@@ -460,6 +464,10 @@ impl File {
         // `PREALLOC_CHUNK`, not per commit.
         #[cfg(all(aranya_core_verif, feature = "std"))]
         verif_io_log::record(verif_io_log::IoOp::Fsync);
+        #[cfg(all(aranya_core_verif, feature = "std"))]
+        if verif_io_log::take_failure().is_some() {
+            return Err(StorageError::IoError);
+        }
         libc::fsync(&self.fd)?;
         Ok(())
     }
@@ -491,6 +499,16 @@ impl File {
             offset,
             bytes: buf.to_vec(),
         });
+        #[cfg(all(aranya_core_verif, feature = "std"))]
+        if let Some(keep) = verif_io_log::take_failure() {
+            // injected failure: only the first `keep` bytes are written
+            if let Some(part) = buf.get(..keep.min(buf.len())) {
+                if !part.is_empty() {
+                    let _ = libc::pwrite(&self.fd, part, offset);
+                }
+            }
+            return Err(StorageError::IoError);
+        }
         while !buf.is_empty() {
             match libc::pwrite(&self.fd, buf, offset) {
                 Ok(0) => {
@@ -513,6 +531,10 @@ impl File {
     fn sync(&self) -> Result<(), StorageError> {
         #[cfg(all(aranya_core_verif, feature = "std"))]
         verif_io_log::record(verif_io_log::IoOp::Fdatasync);
+        #[cfg(all(aranya_core_verif, feature = "std"))]
+        if verif_io_log::take_failure().is_some() {
+            return Err(StorageError::IoError);
+        }
         // `fdatasync` is sufficient for durability here: we only ever need the
         // data and the metadata required to read it back (file size, block
         // mapping), never timestamps. It avoids the extra inode-metadata journal
@@ -595,10 +617,55 @@ pub mod verif_io_log {
             /// Length of the region.
             len: i64,
         },
+        /// The call recorded just before this marker failed (injected `IoError`); of a
+        /// `Pwrite` only the first `keep` bytes were written.
+        Failed {
+            /// Bytes of a failing `write_all` that were written.
+            keep: usize,
+        },
     }
 
     std::thread_local! {
         static LOG: RefCell<Option<Vec<IoOp>>> = const { RefCell::new(None) };
+    }
+
+    std::thread_local! {
+        /// `(n, keep)`: the `n`-th recorded I/O call from now (0 = the next one) fails; a failing
+        /// `write_all` writes only its first `keep` bytes.
+        static FAIL: RefCell<Option<(usize, usize)>> = const { RefCell::new(None) };
+    }
+
+    /// Arms fault injection on this thread: the `n`-th I/O call from now fails with `IoError`.
+    pub fn set_failure(n: usize, keep: usize) {
+        FAIL.with(|f| *f.borrow_mut() = Some((n, keep)));
+    }
+
+    /// Disarms fault injection; returns whether a failure was still armed (i.e. did not fire).
+    pub fn clear_failure() -> bool {
+        FAIL.with(|f| f.borrow_mut().take().is_some())
+    }
+
+    /// Called by the `File` wrappers after recording the call: `Some(keep)` if this call is the
+    /// one that must fail (a `Failed` marker is appended to the log).
+    pub(super) fn take_failure() -> Option<usize> {
+        let hit = FAIL.with(|f| {
+            let mut f = f.borrow_mut();
+            match *f {
+                Some((0, keep)) => {
+                    *f = None;
+                    Some(keep)
+                }
+                Some((n, keep)) => {
+                    *f = Some((n.saturating_sub(1), keep));
+                    None
+                }
+                None => None,
+            }
+        });
+        if let Some(keep) = hit {
+            record(IoOp::Failed { keep });
+        }
+        hit
     }
 
     /// Starts (or restarts) recording on this thread with an empty log.
@@ -650,6 +717,11 @@ impl Writer {
             self.root.checksum,
             self.next_root,
         )
+    }
+
+    /// `(alloc_end, data_dirty)`.
+    pub fn verif_state(&self) -> (i64, bool) {
+        (self.alloc_end, self.data_dirty)
     }
 }
 
